@@ -403,3 +403,450 @@ Lemma counter_exact bound j (bs : list batch) v :
 Proof.
   intros col H. rewrite counter_is_concat. fold col. rewrite bc_exact by assumption. apply get_exact_run.
 Qed.
+
+(* ====================================================================================== *)
+(* (iii) rare values                                                                       *)
+
+Lemma count_pair j' (l : list str) j v :
+  count_occ key_eq_dec (map (fun x => (j', x)) l) (j, v) =
+  if Nat.eq_dec j j' then count_occ str_eq_dec l v else 0%nat.
+Proof.
+  induction l as [|a l IH]; cbn [map count_occ].
+  - destruct (Nat.eq_dec j j'); reflexivity.
+  - rewrite IH. destruct (key_eq_dec (j', a) (j, v)) as [E|E], (Nat.eq_dec j j') as [E1|E1],
+      (str_eq_dec a v) as [E2|E2]; try reflexivity; try (inversion E; congruence);
+      exfalso; apply E; congruence.
+Qed.
+
+Lemma count_keys_seq (b : list row) a n j v :
+  count_occ key_eq_dec (flat_map (fun j => map (fun v => (j, v)) (column j b)) (seq a n)) (j, v) =
+  if ((a <=? j) && (j <? a + n))%nat then count_occ str_eq_dec (column j b) v else 0%nat.
+Proof.
+  revert a. induction n as [|n IH]; intro a; cbn [seq flat_map].
+  - destruct (Nat.leb_spec a j), (Nat.ltb_spec j (a + 0)); cbn; try reflexivity; lia.
+  - rewrite count_occ_app, count_pair, IH.
+    destruct (Nat.eq_dec j a) as [->|Hn].
+    + destruct (Nat.leb_spec (S a) a), (Nat.ltb_spec a (S a + n)), (Nat.leb_spec a a), (Nat.ltb_spec a (a + S n));
+        cbn [andb]; lia.
+    + destruct (Nat.leb_spec (S a) j), (Nat.ltb_spec j (S a + n)), (Nat.leb_spec a j), (Nat.ltb_spec j (a + S n));
+        cbn [andb]; lia.
+Qed.
+
+Lemma cnt_keys_of ncols (b : list row) k : cnt key_eq_dec (keys_of ncols b) k = total ncols b k.
+Proof.
+  destruct k as [j v]. unfold cnt, keys_of, total. rewrite count_keys_seq. cbn [fst snd Nat.add].
+  destruct (Nat.ltb_spec j ncols); cbn [Nat.leb andb]; reflexivity.
+Qed.
+
+Lemma total_app ncols (r1 r2 : list row) k : total ncols (r1 ++ r2) k = total ncols r1 k + total ncols r2 k.
+Proof. unfold total. destruct (fst k <? ncols)%nat; [|reflexivity]. rewrite column_app. apply cnt_app. Qed.
+
+Lemma total_nonneg ncols rows k : 0 <= total ncols rows k.
+Proof. unfold total. destruct (fst k <? ncols)%nat; [apply cnt_nonneg|lia]. Qed.
+
+Lemma total_nil ncols k : total ncols [] k = 0.
+Proof. unfold total. destruct (fst k <? ncols)%nat; reflexivity. Qed.
+
+Lemma get_In {A} (dec : forall a b : A, {a = b} + {a <> b}) (s : list (A * Z)) k c :
+  get dec s k = c -> c <> 0 -> In (k, c) s.
+Proof.
+  induction s as [|[a c0] s IH]; cbn [get In]; intros H Hc; [congruence|].
+  destruct (dec k a) as [->|]; [left; congruence|right; auto].
+Qed.
+
+Section RareFacts.
+  Variable thr : Z.
+  Variable ncols : nat.
+  Notation tot := (total ncols).
+
+  Lemma rv_fold ign keys st k : wf st ->
+    wf (fold_left (rv_count ign) keys st) /\
+    get key_eq_dec (fold_left (rv_count ign) keys st) k =
+    get key_eq_dec st k + (if memb key_eq_dec k ign then 0 else cnt key_eq_dec keys k).
+  Proof.
+    revert st. induction keys as [|a keys IH]; intros st W; cbn [fold_left].
+    - split; [assumption|]. unfold cnt; cbn. destruct (memb key_eq_dec k ign); lia.
+    - assert (W' : wf (rv_count ign st a)) by (unfold rv_count; destruct (memb key_eq_dec a ign); auto using wf_incr).
+      destruct (IH _ W') as [I1 I2]. split; [assumption|]. rewrite I2. unfold rv_count, cnt. cbn [count_occ].
+      destruct (memb key_eq_dec a ign) eqn:Ea, (memb key_eq_dec k ign) eqn:Ek; try rewrite get_incr;
+        destruct (key_eq_dec a k) as [E|E], (key_eq_dec k a) as [E'|E']; try congruence; try lia.
+  Qed.
+
+  Definition Inv (pre : list row) (s : rstate) : Prop :=
+    wf (fst s) /\
+    (forall k, In k (snd s) <-> 0 < tot pre k /\ thr < tot pre k) /\
+    (forall k, get key_eq_dec (fst s) k = if thr <? tot pre k then 0 else tot pre k).
+
+  Lemma Inv_init : Inv [] ([], []).
+  Proof.
+    split; [apply wf_nil|split]; intro k; cbn [fst snd get In]; rewrite total_nil.
+    - lia.
+    - destruct (thr <? 0); reflexivity.
+  Qed.
+
+  Lemma Inv_step pre s b : Inv pre s -> Inv (pre ++ b) (rv_batch thr ncols s b).
+  Proof.
+    destruct s as [st ign]. intros (W & Hi & Hg). cbn [fst snd] in *. unfold rv_batch. cbv beta iota zeta.
+    set (st1 := fold_left (rv_count ign) (keys_of ncols b) st).
+    assert (W1 : wf st1) by (apply (rv_fold ign (keys_of ncols b) st (0%nat, [])); assumption).
+    assert (G1 : forall k, get key_eq_dec st1 k =
+                           get key_eq_dec st k + (if memb key_eq_dec k ign then 0 else tot b k)).
+    { intro k. unfold st1. rewrite <- cnt_keys_of. apply rv_fold. assumption. }
+    unfold Inv. cbn [fst snd]. split; [apply wf_filter; assumption|split]; intro k;
+      pose proof (total_nonneg ncols pre k) as P0; pose proof (total_nonneg ncols b k) as P1;
+      rewrite total_app; specialize (G1 k); specialize (Hg k); specialize (Hi k).
+    - rewrite in_app_iff, in_map_iff.
+      assert (E : (exists x : key * Z, fst x = k /\ In x (filter (fun kc : key * Z => thr <? snd kc) st1)) <->
+                  0 < get key_eq_dec st1 k /\ thr < get key_eq_dec st1 k).
+      { split.
+        - intros [[k' c] [E I]]. cbn [fst] in E. subst k'. apply filter_In in I. destruct I as [I T]. cbn [snd] in T.
+          apply (wf_In _ key_eq_dec) in I; [|assumption]. lia.
+        - intros [H1 H2]. exists (k, get key_eq_dec st1 k). split; [reflexivity|]. apply filter_In. split.
+          + apply (wf_In _ key_eq_dec); auto.
+          + cbn [snd]. lia. }
+      rewrite E. clear E.
+      destruct (memb key_eq_dec k ign) eqn:M.
+      + apply memb_true in M. assert (Q : 0 < tot pre k /\ thr < tot pre k) by tauto.
+        split; [intros _; lia|intros _; right; exact M].
+      + assert (N : ~ In k ign) by (rewrite <- (memb_true _ key_eq_dec); congruence).
+        assert (Q : ~ (0 < tot pre k /\ thr < tot pre k)) by tauto.
+        split; [intros [H|H]; [|contradiction]|intro H; left]; destruct (thr <? tot pre k) eqn:T; lia.
+    - rewrite (get_filter _ key_eq_dec (fun c => negb (thr <? c))) by assumption.
+      destruct (memb key_eq_dec k ign) eqn:M.
+      + apply memb_true in M. assert (Q : 0 < tot pre k /\ thr < tot pre k) by tauto.
+        destruct (thr <? tot pre k) eqn:T, (thr <? get key_eq_dec st1 k) eqn:T1,
+          (thr <? tot pre k + tot b k) eqn:T2; cbn [negb]; lia.
+      + assert (N : ~ In k ign) by (rewrite <- (memb_true _ key_eq_dec); congruence).
+        assert (Q : ~ (0 < tot pre k /\ thr < tot pre k)) by tauto.
+        destruct (thr <? tot pre k) eqn:T, (thr <? get key_eq_dec st1 k) eqn:T1,
+          (thr <? tot pre k + tot b k) eqn:T2; cbn [negb]; lia.
+  Qed.
+
+  Lemma Inv_fold bs pre s : Inv pre s -> Inv (pre ++ concat bs) (fold_left (rv_batch thr ncols) bs s).
+  Proof.
+    revert pre s. induction bs as [|b bs IH]; intros pre s H; cbn [concat fold_left].
+    - rewrite app_nil_r. assumption.
+    - rewrite app_assoc. apply IH. apply Inv_step. assumption.
+  Qed.
+
+  Lemma Inv_run (bs : list batch) : Inv (concat bs) (rv_run thr ncols bs).
+  Proof. apply (Inv_fold bs [] ([], [])). apply Inv_init. Qed.
+
+  (* the report is exactly {((col, v), total) | 1 <= total <= thr} *)
+  Lemma rare_spec (bs : list batch) :
+    NoDup (map fst (rare thr ncols bs)) /\
+    (forall k c, In (k, c) (rare thr ncols bs) <-> c = tot (concat bs) k /\ 0 < c /\ c <= thr) /\
+    (forall k, get key_eq_dec (rare thr ncols bs) k =
+               if thr <? tot (concat bs) k then 0 else tot (concat bs) k) /\
+    (forall k, In k (snd (rv_run thr ncols bs)) <-> 0 < tot (concat bs) k /\ thr < tot (concat bs) k).
+  Proof.
+    destruct (Inv_run bs) as (W & Hi & Hg). unfold rare. split; [apply W|split; [|split; assumption]].
+    intros k c. rewrite (wf_In _ key_eq_dec _ k c W), Hg.
+    destruct (Z.ltb_spec thr (tot (concat bs) k)); lia.
+  Qed.
+
+  Lemma rare_wf (bs : list batch) : wf (rare thr ncols bs).
+  Proof. apply Inv_run. Qed.
+
+  Lemma rare_split_indep (s1 s2 : list batch) : concat s1 = concat s2 ->
+    Permutation (rare thr ncols s1) (rare thr ncols s2) /\
+    (forall k, get key_eq_dec (rare thr ncols s1) k = get key_eq_dec (rare thr ncols s2) k).
+  Proof.
+    intro E.
+    assert (G : forall k, get key_eq_dec (rare thr ncols s1) k = get key_eq_dec (rare thr ncols s2) k).
+    { intro k. destruct (rare_spec s1) as (_ & _ & G1 & _), (rare_spec s2) as (_ & _ & G2 & _).
+      rewrite G1, G2, E. reflexivity. }
+    split; [|exact G]. apply (wf_perm _ key_eq_dec); auto using rare_wf.
+  Qed.
+
+  (* the checker evaluated on implementation reports *)
+  Lemma rare_checkb_sound rows rep : rare_checkb thr ncols rows rep = true ->
+    NoDup (map fst rep) /\ (forall k c, In (k, c) rep <-> c = tot rows k /\ 0 < c /\ c <= thr).
+  Proof.
+    unfold rare_checkb. rewrite !andb_true_iff. intros [[H1 H2] H3].
+    destruct (NoDup_dec key_eq_dec (map fst rep)) as [N|]; [|discriminate]. split; [assumption|].
+    rewrite forallb_forall in H2, H3. intros k c. split.
+    - intro I. specialize (H2 _ I). cbn [fst snd] in H2. lia.
+    - intros (E & P & L). subst c.
+      assert (I : In k (keys_of ncols rows)) by (apply (cnt_pos_In _ key_eq_dec); rewrite cnt_keys_of; assumption).
+      specialize (H3 _ I). cbv zeta in H3. apply (get_In key_eq_dec); lia.
+  Qed.
+
+  Lemma rare_checkb_model (bs : list batch) : rare_checkb thr ncols (concat bs) (rare thr ncols bs) = true.
+  Proof.
+    destruct (rare_spec bs) as (N & S & G & _). unfold rare_checkb. rewrite !andb_true_iff. repeat split.
+    - destruct (NoDup_dec key_eq_dec (map fst (rare thr ncols bs))); [reflexivity|contradiction].
+    - apply forallb_forall. intros [k c] I. apply S in I. cbn [fst snd]. lia.
+    - apply forallb_forall. intros k _. cbv zeta. rewrite G.
+      destruct (Z.ltb_spec thr (tot (concat bs) k)); lia.
+  Qed.
+End RareFacts.
+
+(* the machine before fix 549e068: threshold 2, [a,a,a,b] | [a,b,c] reports a with count 1 although a
+   occurs 4 times; the same rows in one batch do not report a *)
+Lemma rare_old_refuted :
+  exists (thr : Z) (s1 s2 : list batch) (k : key),
+    concat s1 = concat s2 /\
+    total 1 (concat s1) k = 4 /\ thr = 2 /\
+    get key_eq_dec (rare_old thr 1 s1) k = 1 /\
+    get key_eq_dec (rare_old thr 1 s2) k = 0 /\
+    get key_eq_dec (rare thr 1 s1) k = 0.
+Proof.
+  exists 2, [[[[97%N]]; [[97%N]]; [[97%N]]; [[98%N]]]; [[[97%N]]; [[98%N]]; [[99%N]]]],
+         [[[[97%N]]; [[97%N]]; [[97%N]]; [[98%N]]; [[97%N]]; [[98%N]]; [[99%N]]]], (0%nat, [97%N]).
+  vm_compute. repeat split; reflexivity.
+Qed.
+
+(* ====================================================================================== *)
+(* (iv) coverage                                                                           *)
+
+Lemma filter_cons_len (a : str) l' (col : list str) : ~ In a l' ->
+  length (filter (fun v => memb str_eq_dec v (a :: l')) col) =
+  (count_occ str_eq_dec col a + length (filter (fun v => memb str_eq_dec v l') col))%nat.
+Proof.
+  intro Na. induction col as [|v col IH]; [reflexivity|]. cbn [filter count_occ].
+  destruct (memb str_eq_dec v (a :: l')) eqn:M1, (memb str_eq_dec v l') eqn:M2, (str_eq_dec v a) as [E|E];
+    cbn [length]; rewrite IH; try lia; exfalso;
+    try (apply memb_true in M1); try (apply memb_true in M2);
+    try (assert (N1 : ~ In v (a :: l')) by (rewrite <- (memb_true _ str_eq_dec); congruence));
+    try (assert (N2 : ~ In v l') by (rewrite <- (memb_true _ str_eq_dec); congruence)); cbn [In] in *;
+    subst; intuition congruence.
+Qed.
+
+Lemma sum_counts l (col : list str) : NoDup l ->
+  sum_Z (map (cnt str_eq_dec col) l) = Z.of_nat (length (filter (fun v => memb str_eq_dec v l) col)).
+Proof.
+  induction 1 as [|a l Na N IH]; cbn [map sum_Z fold_right].
+  - unfold sum_Z. cbn. induction col; cbn; auto.
+  - rewrite filter_cons_len by assumption. unfold sum_Z in *. rewrite IH. unfold cnt. lia.
+Qed.
+
+Definition missing_cells (syms col : list str) : Z :=
+  Z.of_nat (length (filter (fun v => memb str_eq_dec v syms) col)).
+
+Lemma miss_count_spec syms col : miss_count syms col = missing_cells syms col.
+Proof.
+  unfold miss_count, missing_cells. rewrite sum_counts by apply NoDup_nodup. f_equal. f_equal.
+  apply filter_ext. intro v. unfold memb.
+  destruct (in_dec str_eq_dec v (nodup str_eq_dec syms)) as [i|n], (in_dec str_eq_dec v syms) as [i'|n']; auto.
+  - apply nodup_In in i. contradiction.
+  - exfalso. apply n. apply nodup_In. assumption.
+Qed.
+
+Lemma filter_len_le {A} (p : A -> bool) l : (length (filter p l) <= length l)%nat.
+Proof. induction l as [|a l IH]; cbn [filter length]; [lia|]. destruct (p a); cbn [length]; lia. Qed.
+
+Lemma missing_le syms col : 0 <= missing_cells syms col <= Z.of_nat (length col).
+Proof. unfold missing_cells. pose proof (filter_len_le (fun v => memb str_eq_dec v syms) col). lia. Qed.
+
+Lemma cov_batch_spec syms col : col <> [] ->
+  (cov_batch syms col * inject_Z (Z.of_nat (length col)) ==
+   inject_Z (100 * (Z.of_nat (length col) - missing_cells syms col)))%Q.
+Proof.
+  intro H. unfold cov_batch. rewrite miss_count_spec.
+  assert (P : 0 < Z.of_nat (length col)) by (destruct col; [congruence|cbn [length]; lia]).
+  set (n := Z.of_nat (length col)) in *. set (m := missing_cells syms col).
+  clearbody n m. unfold Z.sub. rewrite inject_Z_mult, inject_Z_plus, inject_Z_opp.
+  field. intro E. apply (inject_Z_injective n 0) in E. lia.
+Qed.
+
+Lemma cov_batch_range syms col : col <> [] -> (0 <= cov_batch syms col <= 100)%Q.
+Proof.
+  intro H. pose proof (cov_batch_spec syms col H) as S. pose proof (missing_le syms col) as M.
+  assert (P : 0 < Z.of_nat (length col)) by (destruct col; [congruence|cbn [length]; lia]).
+  set (n := Z.of_nat (length col)) in *. set (m := missing_cells syms col) in *. clearbody n m.
+  assert (PN : (0 < inject_Z n)%Q) by (change 0%Q with (inject_Z 0); rewrite <- Zlt_Qlt; lia).
+  assert (E : (cov_batch syms col == inject_Z (100 * (n - m)) / inject_Z n)%Q).
+  { rewrite <- S. field. intro E. rewrite E in PN. apply Qlt_irrefl in PN. exact PN. }
+  rewrite E. split.
+  - apply Qle_shift_div_l; [exact PN|]. rewrite Qmult_0_l. change 0%Q with (inject_Z 0). rewrite <- Zle_Qle. lia.
+  - apply Qle_shift_div_r; [exact PN|]. change 100%Q with (inject_Z 100). rewrite <- inject_Z_mult, <- Zle_Qle. lia.
+Qed.
+
+(* nearest integer, ties to even: |x - r| <= 1/2, and r is even at a tie *)
+Lemma rhe_spec (n : Z) (d : positive) :
+  let r := round_half_even (n # d) in
+  (2 * r - 1) * Zpos d <= 2 * n <= (2 * r + 1) * Zpos d /\
+  (2 * n = (2 * r + 1) * Zpos d \/ 2 * n = (2 * r - 1) * Zpos d -> Z.even r = true).
+Proof.
+  unfold round_half_even. cbn [Qnum Qden].
+  pose proof (Z.div_mod n (Zpos d) ltac:(lia)) as E.
+  pose proof (Z.mod_pos_bound n (Zpos d) ltac:(lia)) as B.
+  set (fl := n / Zpos d) in *. set (rm := n mod Zpos d) in *. clearbody fl rm.
+  destruct (Z.compare_spec (2 * rm) (Zpos d)) as [C|C|C].
+  - destruct (Z.even fl) eqn:Ev.
+    + split; [nia|intros _; exact Ev].
+    + split; [nia|]. intros _. change (fl + 1) with (Z.succ fl). rewrite Z.even_succ, <- Z.negb_even, Ev. reflexivity.
+  - split; [nia|]. intros [H|H]; exfalso; nia.
+  - split; [nia|]. intros [H|H]; exfalso; nia.
+Qed.
+
+Lemma annot_spec (n : Z) (d : positive) (a : Z) : 0 <= n ->
+  (Z.quot (round_half_even (n # d)) 10 = a <->
+   (20 * a - 1) * Zpos d <= 2 * n < (20 * a + 19) * Zpos d).
+Proof.
+  intro Hn. destruct (rhe_spec n d) as [B T]. cbv zeta in *.
+  set (r := round_half_even (n # d)) in *. clearbody r.
+  assert (R0 : 0 <= r) by nia.
+  rewrite Z.quot_div_nonneg by lia.
+  assert (Ev : forall k, (r = 10 * k + 9 \/ r = 10 * k - 1) -> Z.even r = true -> False).
+  { intros k Hk He. apply Z.even_spec in He. destruct He as [q Hq]. lia. }
+  split.
+  - intro A. pose proof (Z.div_mod r 10 ltac:(lia)) as E. pose proof (Z.mod_pos_bound r 10 ltac:(lia)) as M.
+    rewrite A in E. split; [nia|].
+    destruct (Z.eq_dec (2 * n) ((20 * a + 19) * Zpos d)) as [Q|Q]; [|nia].
+    exfalso. assert (r = 10 * a + 9) by nia. apply (Ev a); [lia|]. apply T. left. nia.
+  - intros [L U]. symmetry. apply (Z.div_unique r 10 a (r - 10 * a)); [|lia].
+    assert (10 * a - 1 <= r) by nia. assert (r < 10 * a + 10) by nia.
+    destruct (Z.eq_dec r (10 * a - 1)) as [Q|Q]; [|lia].
+    exfalso. apply (Ev a); [lia|]. apply T. left. nia.
+Qed.
+
+Theorem cov_annot_spec covs a : (0 <= qmean covs)%Q ->
+  (cov_annot covs = a <->
+   (inject_Z a - (1 # 20) <= qmean covs)%Q /\ (qmean covs < inject_Z a + (19 # 20))%Q).
+Proof.
+  unfold cov_annot. destruct (qmean covs) as [p q]. intro H0.
+  assert (P : 0 <= p) by (unfold Qle in H0; cbn in H0; lia).
+  unfold Qmult. cbn [Qnum Qden]. rewrite annot_spec by lia.
+  unfold Qle, Qlt, Qminus, Qplus, Qopp, inject_Z. cbn [Qnum Qden].
+  rewrite Pos.mul_1_r. change (Z.pos (1 * 20)) with 20. lia.
+Qed.
+
+Lemma qsum_nonneg l : Forall (fun c => 0 <= c)%Q l -> (0 <= qsum l)%Q.
+Proof.
+  induction 1 as [|c l Hc F IH]; cbn [qsum fold_right]; [apply Qle_refl|].
+  change 0%Q with (0 + 0)%Q. apply Qplus_le_compat; assumption.
+Qed.
+
+Lemma qmean_nonneg l : Forall (fun c => 0 <= c)%Q l -> (0 <= qmean l)%Q.
+Proof.
+  intro F. unfold qmean, Qdiv. apply Qmult_le_0_compat; [apply qsum_nonneg; assumption|].
+  apply Qinv_le_0_compat. change 0%Q with (inject_Z 0). rewrite <- Zle_Qle. lia.
+Qed.
+
+(* ====================================================================================== *)
+(* compositions and the symbol list                                                        *)
+
+Lemma concat_cut sizes (rows : list row) : list_sum sizes = length rows -> concat (cut sizes rows) = rows.
+Proof.
+  revert rows. induction sizes as [|n r IH]; intros rows H; cbn [cut concat] in *.
+  - destruct rows; [reflexivity|discriminate].
+  - change (list_sum (n :: r)) with (n + list_sum r)%nat in H. rewrite IH; [apply firstn_skipn|]. rewrite skipn_length. lia.
+Qed.
+
+Fixpoint join (c : N) (l : list str) : str :=
+  match l with
+  | [] => []
+  | x :: r => match r with [] => x | _ => x ++ c :: join c r end
+  end.
+
+Lemma split_on_nonnil c s : split_on c s <> [].
+Proof. destruct s as [|x r]; cbn [split_on]; [discriminate|]. destruct (split_on c r); [discriminate|]. destruct (N.eqb x c); discriminate. Qed.
+
+(* str.split(c): the pieces contain no separator and joining them with it gives the string back *)
+Lemma split_on_spec c s : join c (split_on c s) = s /\ Forall (fun p => ~ In c p) (split_on c s).
+Proof.
+  induction s as [|x r IH]; cbn [split_on].
+  - split; [reflexivity|repeat constructor; intros []].
+  - destruct IH as [IH1 IH2]. pose proof (split_on_nonnil c r) as NN. destruct (split_on c r) as [|h t]; [congruence|].
+    pose proof (Forall_inv IH2) as Hh. pose proof (Forall_inv_tail IH2) as Ht. cbv beta in Hh.
+    destruct (N.eqb_spec x c) as [->|Hx].
+    + split; [change (join c ([] :: h :: t)) with ([] ++ c :: join c (h :: t)); rewrite IH1; reflexivity|repeat constructor; auto; intros []].
+    + split.
+      * destruct t as [|h' t]; [cbn [join] in *; congruence|].
+        change (join c ((x :: h) :: h' :: t)) with ((x :: h) ++ c :: join c (h' :: t)).
+        change (join c (h :: h' :: t)) with (h ++ c :: join c (h' :: t)) in IH1. cbn [app]. congruence.
+      * constructor; [|assumption]. cbn [In]. intros [E|E]; [congruence|contradiction].
+Qed.
+
+(* ====================================================================================== *)
+(* split independence                                                                      *)
+
+Lemma split_indep (hash : str -> N) cap edges bound thr ncols (s1 s2 : list batch) :
+  0 <= cap -> concat s1 = concat s2 ->
+  (forall j, card hash cap j s1 = card hash cap j s2) /\
+  (forall j, counter bound j s1 = counter bound j s2 /\ hist edges bound j s1 = hist edges bound j s2) /\
+  Permutation (rare thr ncols s1) (rare thr ncols s2) /\
+  (forall k, get key_eq_dec (rare thr ncols s1) k = get key_eq_dec (rare thr ncols s2) k).
+Proof.
+  intros Hc E. split; [|split].
+  - intro j. rewrite !card_is_spec by assumption. rewrite E. reflexivity.
+  - intro j. unfold hist. rewrite !counter_is_concat, E. split; reflexivity.
+  - apply rare_split_indep. assumption.
+Qed.
+
+(* every composition of the row count gives the same statistics *)
+Lemma compositions_agree (hash : str -> N) cap edges bound thr ncols (rows : list row) sz1 sz2 :
+  0 <= cap -> list_sum sz1 = length rows -> list_sum sz2 = length rows ->
+  (forall j, card hash cap j (cut sz1 rows) = card hash cap j (cut sz2 rows)) /\
+  (forall j, hist edges bound j (cut sz1 rows) = hist edges bound j (cut sz2 rows)) /\
+  Permutation (rare thr ncols (cut sz1 rows)) (rare thr ncols (cut sz2 rows)).
+Proof.
+  intros Hc H1 H2.
+  destruct (split_indep hash cap edges bound thr ncols (cut sz1 rows) (cut sz2 rows) Hc) as (A & B & C & _).
+  - rewrite !concat_cut by assumption. reflexivity.
+  - split; [exact A|split; [intro j; apply B|exact C]].
+Qed.
+
+(* ====================================================================================== *)
+(* non-vacuity: concrete, non-trivial instances of the hypotheses                           *)
+
+Module Examples.
+  Definition a : str := [97%N]. Definition b : str := [98%N]. Definition c : str := [99%N].
+  Definition e : str := []. Definition na : str := [78%N; 65%N].
+  Definition h1 (v : str) : N := match v with [x] => x | _ => 0%N end.
+  Definition rows : list row := [[a; e]; [a; b]; [a; na]; [b; e]; [a; b]; [c; e]].
+  Definition sp1 : list batch := cut [4; 2]%nat rows.
+  Definition sp2 : list batch := cut [1; 2; 3]%nat rows.
+
+  Example ex_split : concat sp1 = concat sp2 /\ sp1 <> sp2 /\
+    card h1 262144 0 sp1 = Some 3%nat /\ hist default_edges 30000 0 sp1 = [3; 1; 0; 0; 0; 0; 0] /\
+    rare 2 2 sp1 = [((0%nat, b), 1); ((1%nat, b), 2); ((1%nat, na), 1); ((0%nat, c), 1)] /\
+    rare 2 2 sp2 = [((1%nat, b), 2); ((1%nat, na), 1); ((0%nat, b), 1); ((0%nat, c), 1)].
+  Proof. vm_compute. repeat split; try reflexivity. discriminate. Qed.
+
+  (* card_exact: hypotheses hold for column 0 of the table, three distinct non-empty values *)
+  Example ex_card_inj :
+    let col := column 0 (concat sp1) in
+    (forall u v, In u col -> In v col -> u <> [] -> v <> [] -> h1 u = h1 v -> u = v) /\
+    Z.of_nat (distinct_nonempty col) <= 262144 /\ distinct_nonempty col = 3%nat.
+  Proof.
+    cbv zeta. split; [|vm_compute; split; [discriminate|reflexivity]].
+    intros u v Iu Iv _ _. vm_compute in Iu, Iv.
+    repeat (destruct Iu as [Iu|Iu]; [subst u|]); try contradiction;
+      repeat (destruct Iv as [Iv|Iv]; [subst v|]); try contradiction; vm_compute; congruence.
+  Qed.
+
+  (* empty strings are not counted; the other missing markers are *)
+  Example ex_card_empty : card h1 262144 1 sp1 = Some 2%nat /\ card_spec h1 262144 [e; na; e] = Some 1%nat.
+  Proof. vm_compute. split; reflexivity. Qed.
+
+  (* a full sketch: one more distinct hash than the capacity and the claim ends *)
+  Example ex_card_cold : card h1 2 0 sp1 = None /\ card h1 3 0 sp1 = Some 3%nat.
+  Proof. vm_compute. split; reflexivity. Qed.
+
+  Example ex_hist_hyp : Z.of_nat (length (nodup str_eq_dec (column 0 (concat sp1)))) < 30000.
+  Proof. vm_compute. reflexivity. Qed.
+
+  (* the bound hypothesis is needed: with 2 slots the third value and every later cell are dropped *)
+  Example ex_hist_bound : hist [0; 1] 2 0 sp1 = [2; 1] /\ hist_spec [0; 1] (column 0 (concat sp1)) = [3; 1] /\
+                          hist [0; 1] 2 0 sp2 = [2; 1].
+  Proof. vm_compute. repeat split; reflexivity. Qed.
+
+  (* a is retired in the first batch of sp1 (3 > 2) and stays out although it comes back *)
+  Example ex_rare_retire :
+    get key_eq_dec (rare 2 2 sp1) (0%nat, a) = 0 /\ total 2 (concat sp1) (0%nat, a) = 4 /\
+    In (0%nat, a) (snd (rv_run 2 2 sp1)) /\ get key_eq_dec (rare_old 2 2 sp1) (0%nat, a) = 1.
+  Proof. repeat split; try (vm_compute; reflexivity). apply (memb_true _ key_eq_dec). vm_compute. reflexivity. Qed.
+
+  Example ex_cov : cov_batch [e; na] (column 1 (concat sp1)) == 100 # 3 /\
+                   cov_annot (coverages (split_on 44 [44%N; 78%N; 65%N]) 1 sp1) = 37 /\
+                   cov_annot (coverages (split_on 44 [44%N; 78%N; 65%N]) 1 sp2) = 27.
+  Proof. vm_compute. repeat split; reflexivity. Qed.
+
+  (* rounding to one decimal before truncating: 99.96 -> 100, 99.94 -> 99, the tie 99.95 -> 100 *)
+  Example ex_round : cov_annot [9996 # 100] = 100 /\ cov_annot [9994 # 100] = 99 /\ cov_annot [9995 # 100] = 100 /\
+                     cov_annot [100 # 1; 999 # 10] = 100 /\ cov_annot [4995 # 100] = 50 /\ cov_annot [4985 # 100] = 49.
+  Proof. vm_compute. repeat split; reflexivity. Qed.
+End Examples.
